@@ -2,10 +2,12 @@
 from contracts import solvers, solvers_tables, solvers_steps
 
 LEVEL = 'proof'
+BOUNDED_MODULE = 'bounded.C12'
 EXPLANATION = ('order conditions of the 12 shipped tableaux by exact rational/algebraic evaluation of the literals in the '
                'current source; stage equations of dirk_step/rosenbrock_step as formal-vector identities for all coefficient '
                'values (finite: tableau shapes); newton exit condition and the constant/adaptive step controllers by VCs with '
-               'loop invariants over abstract vectors.')
+               'loop invariants over abstract vectors.  The real drivers are run on y\' = const (every shipped integrator, five decades of step sizes, '
+               'identity / SPD / no mass matrix) as a bounded stand-in for what the assumed Newton contract hides (finite tolerances).')
 ASSUMPTIONS = [
     'order-condition tolerance 5e-9 on exactly evaluated residuals (tables print 10-20 digits)',
     'documented orders are read from the comments next to each DIRK table; for Rosenbrock tables main order = err_order+1, embedded = err_order',
@@ -28,7 +30,7 @@ def extra_obligations(tier):
 
 MANIFEST = {
     'category': 'proof',
-    'technique': 'contract-based deductive verification: exact evaluation of the coefficient code + algebraic order conditions; formal-vector stage identities on the real step functions; z3 VCs with loop invariants for newton and the step controllers',
+    'technique': 'contract-based deductive verification (plus a bounded run of the real drivers on y\'=const): exact evaluation of the coefficient code + algebraic order conditions; formal-vector stage identities on the real step functions; z3 VCs with loop invariants for newton and the step controllers',
     'text': 'Every shipped tableau (7 DIRK, 5 Rosenbrock) is re-read from the current source, evaluated in exact arithmetic and checked against the order conditions of its documented main and embedded order, lower-triangularity, stiff accuracy and constant Gamma diagonal. The real dirk_step and rosenbrock_step are executed over formal vectors with their dependencies replaced by contracts and must produce exactly the stage equations, update and embedded estimate of an arbitrary tableau. newton, the constant-step and the adaptive-step controllers are verified with loop invariants: times t0+k*tau with one state per time; strictly increasing times reaching t_end, steps appended only after r<=1, step factors within [0.2,5]; newton returns only points whose residual was tested below the tolerance and otherwise raises.',
-    'note': 'double treated as real; tolerance 5e-9 on exact residuals; finite stage-count bound for the step identities (s<=3 quick, s<=5 thorough); newton/make_solver/np.allclose contracts assumed; adaptive-loop termination not proved. Known finding: dirk34 table violates its documented order conditions (known_findings.json).',
+    'note': 'double treated as real; tolerance 5e-9 on exact residuals; finite stage-count bound for the step identities (s<=3 quick, s<=5 thorough); newton/make_solver/np.allclose contracts assumed; adaptive-loop termination not proved; the real Newton solver with its finite tolerances is only exercised by the bounded y\'=const runs. Known finding: dirk34 table violates its documented order conditions (known_findings.json).',
 }
